@@ -17,7 +17,8 @@ EXPLANATION = ("The real MultimapResolver runs on n compact records whose assign
                "secondary flag, penalty, chromosome code, coordinates and gene region are symbolic and whose isoform "
                "sets are chosen by the solver; the resolver is executed on the list and on every permutation of it "
                "in the same path, and z3 decides the priority, suspension, tie and order-independence obligations.")
-STUBS = ["BasicReadAssignment objects built directly (fields symbolic); ReadAssignmentType fields are symbolic-enum proxies "
+STUBS = ["hand-off harness: collect_reads_in_parallel / BasicReadAssignmentLoader / pysam / open replaced by fakes (verdict and info files are symbolic byte streams)",
+         "BasicReadAssignment objects built directly (fields symbolic); ReadAssignmentType fields are symbolic-enum proxies "
          "whose predicate methods are evaluated through the real enum methods",
          "src.multimap_resolver/src.common min/max -> term-building shims"]
 ASSUMPTIONS = ["all records of one call belong to one read id (the resolver is called per read)",
@@ -264,6 +265,8 @@ _orig_setup = setup_symbolic
 def setup_symbolic():  # noqa: F811 - extends the shim set with the byte-stream model of C15
     _orig_setup()
     setup_symbolic_c15()
+    from props import handoff
+    handoff.setup_symbolic()
 
 
 def instances(tier, seed):
@@ -283,6 +286,14 @@ def instances(tier, seed):
     for n in ((1, 2) if q else (1, 2, 3)):
         out.append(Instance("loader[n=%d]" % n, h_loader(n), ["src.dataset_processor:ReadAssignmentLoader.get_next"],
                             "%d saved alignments of one read, arbitrary verdict list" % n, weight=5 ** n))
+    # the hand-off: real collect_reads (counting, prepare_multimapper_dict, resolve_multimappers) in both memory modes
+    from props import handoff
+    for n in ((2,) if q else (2, 3)):
+        out.append(Instance("handoff[alignments=%d]" % n, handoff.h_handoff(n),
+                            ["src.dataset_processor:DatasetProcessor.collect_reads", "src.dataset_processor:DatasetProcessor.prepare_multimapper_dict",
+                             "src.dataset_processor:DatasetProcessor.resolve_multimappers", "src.isoform_assignment:BasicReadAssignment.serialize"],
+                            "%d alignments with solver-chosen read id / chromosome / class / secondary flag, symbolic coordinates; default and --high_memory" % n,
+                            weight=3000 * n, budget_s=1800))
     # the two resolution inputs agree: compact record read from the intermediate file (default mode) ==
     # compact record built in memory (--high_memory); harness shared with C15, spliced reads
     from props import c15
